@@ -45,6 +45,12 @@ fn check(case: &Case) -> Outcome {
     if case.original.len() > 1 {
         labels.push("has_tail");
     }
+    if both && matches!(case.observed.first(), Some(Comp::Dns(_))) {
+        labels.push("observed_head_plain_dns");
+    }
+    if both && case.original[1..].iter().any(eligible) {
+        labels.push("original_with_later_host_component");
+    }
     Outcome::pass_l(nontrivial, labels)
 }
 
